@@ -374,7 +374,6 @@ func isOurPath(path string) bool {
 	return strings.HasPrefix(path, modPath) || path == "fixtures"
 }
 
-
 // fieldOwner finds the named struct type that declares field f.
 func (p *Prog) fieldOwner(f *types.Var) *types.Named {
 	if f.Pkg() == nil {
